@@ -654,6 +654,29 @@ def r8_schema_from_all(idx, r):
                       "entries under keys that this element lacks are dropped on write and read back missing")
 
 
+def r9_shape_entries(idx, r):
+    """Every entry of JaggedArray.shapes is read back as a shape (a tuple, iterated by unpack): each append must record
+    a tuple - `array.shape`, `(n,)` - never a bare integer (`shapes.append(len(x),)` appends an int: the trailing comma
+    belongs to the call, not to a tuple), or the data is accepted on write and fails on read."""
+    f = idx.method(JAG + ".JaggedArray", "__init__")
+    if f is None:
+        raise AnchorMissing("JaggedArray.__init__")
+    apps = [c for c in iter_calls(f.node) if call_attr(c) == "append" and dotted(c.func.value) == "shapes"]
+    if len(apps) < 2:
+        raise AnalysisError(f"JaggedArray.__init__: {len(apps)} shapes.append sites found")
+    for i, c in enumerate(apps):
+        a = c.args[0] if c.args else None
+        is_tuple = isinstance(a, ast.Tuple) or (isinstance(a, ast.Attribute) and a.attr == "shape") or (isinstance(a, ast.Call) and dotted(a.func) == "tuple")
+        is_int = isinstance(a, ast.Call) and dotted(a.func) == "len" or (isinstance(a, ast.Constant) and isinstance(a.value, int))
+        if is_tuple:
+            r.ok(f"shapes.append#{i}:{norm(a)[:30]}", f, node=c)
+        elif is_int:
+            r.violate(f"shapes.append#{i}:{norm(a)[:30]}", f, f"`{norm(c)}` records the integer `{norm(a)}` where the other entries record shape tuples: such data is written without complaint and "
+                      "unpack() fails on it at read time ('int' object is not iterable)", node=c)
+        else:
+            r.undecided(f"shapes.append#{i}:{norm(a)[:30] if a is not None else ''}", f, "kind of the recorded shape not recognised", node=c)
+
+
 def run(idx, chk):
     chk.explanation = (
         "C05: pack/unpack are sibling implementations; their attrs key sets, strategy decision trees, None-sentinel tables, "
@@ -677,3 +700,5 @@ def run(idx, chk):
                  lambda r: r7_coercion(idx, r), floor=4, necessary="'never stored as something that reads back different': a cast to a type chosen from one element truncates the others")
     chk.run_rule("R05.8", "the stored key list of dict-valued parameters is computed from every object's dict", lambda r: r8_schema_from_all(idx, r), floor=1,
                  necessary="'dictionaries of numbers ... returned with the same values': a key list taken from one object drops the others' entries")
+    chk.run_rule("R05.9", "every shape recorded by JaggedArray is a tuple (what unpack iterates), never a bare integer", lambda r: r9_shape_entries(idx, r), floor=2,
+                 necessary="'a collection that cannot be represented is rejected at write time; it is never stored as something that reads back different' (or not at all)")
